@@ -665,8 +665,15 @@ def args_stream(ctx, n_random):
         return [status, type(exc).__name__ if exc is not None else None]
 
     def run_cfg(cfg, schema, query, lifo):
+        # every configuration here is single-threaded (manual executor / private loop, no worker threads): a blocking wait of
+        # the code under test is detected deterministically, also when the code swallowed the detector's exception
+        wd = W.watchdog(single_threaded=True)
+        got = _run_cfg(cfg, schema, query, lifo, wd)
+        return ["hang"] if wd.blocked else got
+
+    def _run_cfg(cfg, schema, query, lifo, wd):
         try:
-            with W.watchdog():
+            with wd:
                 if cfg == "blocking":
                     return canon("ok", process_graphql_query(schema, query, runtime=BlockingRuntime(), executor_cls=BlockingExecutor))
                 if cfg == "generic-blocking":
@@ -712,8 +719,9 @@ def args_stream(ctx, n_random):
             return canon("failed", exc=err)
 
     n = 0
+    hangs = 0
     for sdl, query in args_cases(ctx.rng, n_random):
-        if ctx.out_of_time():
+        if ctx.out_of_time() or hangs >= 2:          # a tree that blocks: two reports are enough
             break
         try:
             schema = build_schema(sdl)
@@ -743,6 +751,7 @@ def args_stream(ctx, n_random):
                         ctx.stat("watchdog-unconfirmed")
                         continue
                 import re
+                hangs += got[0] == "hang"
                 argn = sorted(set(re.findall(r"(\w+):", query)))
                 ctx.fail("c08:args:%s:%s-vs-%s:%s" % (cfg, ref[0], got[0], "+".join(a for a in argn if a in ARG_NAMES)[:60]),
                          "field arguments: %s gives %s, BlockingExecutor gives %s" % (cfg, got, ref),
